@@ -119,12 +119,12 @@ def rewrite_concat_ops(op, arch):
     if not op.run_on_npu or not op.type.is_concat_op():
         return
 
+    unfuse_activation_function(op)
+
     axis_4D = 0
     ofm = op.ofm
     ofm.ops = []
     offset = 0
-
-    unfuse_activation_function(op)
 
     if op.type == Op.Pack:
         # Pack is also referred to as Stack
@@ -871,7 +871,7 @@ def unfuse_activation_function(op):
         act_op = Operation(op.activation.op_type, op.name + op.activation.op_type.name)
         op.activation = None
         out_tens = op.outputs[0]
-        intermediate_tens = out_tens.clone("_act_intermediate")
+        intermediate_tens = out_tens.clone("_act_intermediate", set_unique=True)
         act_op.set_output_tensor(out_tens)
         act_op.add_input_tensor(intermediate_tens)
         op.set_output_tensor(intermediate_tens)
